@@ -5,6 +5,7 @@ import (
 	"encoding/json"
 	"fmt"
 	"github.com/99designs/gqlgen/graphql/handler"
+	"github.com/99designs/gqlgen/graphql/handler/lru"
 	"github.com/vektah/gqlparser/v2/gqlerror"
 	"math"
 	"sort"
@@ -104,18 +105,27 @@ var postHandlers sync.Map // *proj.Server -> *handler.Server (long-lived: what o
 func doPost(s *proj.Server, e *univ.Exec, query, varsJSON string) *proj.Response {
 	hv, ok := postHandlers.Load(s)
 	if !ok {
-		hv, _ = postHandlers.LoadOrStore(s, hsrv.New(s, hsrv.Config{Transports: []string{"post"}}))
+		nh := hsrv.New(s, hsrv.Config{Transports: []string{"post"}})
+		// parsed documents are cached, as handler.NewDefaultServer does
+		nh.SetQueryCache(lru.New[*ast.QueryDocument](256))
+		hv, _ = postHandlers.LoadOrStore(s, nh)
 	}
 	h := hv.(*handler.Server)
 	s.U.SetExec(univ.NewExec(plan.New(1)))
 	primer := hsrv.Req{Transport: "post", HasQuery: true, Query: "query($v1: Int, $v2: Int, $v3: Int, $v4: Int, $v5: Int, $v6: Int) { plain }",
 		Variables: `{"v1":11,"v2":12,"v3":13,"v4":14,"v5":15,"v6":16}`}
 	_ = hsrv.Serve(h, primer.Build())
-	s.U.SetExec(e)
 	r := hsrv.Req{Transport: "post", HasQuery: true, Query: query}
 	if strings.TrimSpace(varsJSON) != "{}" && strings.TrimSpace(varsJSON) != "" {
 		r.Variables = varsJSON
 	}
+	// the request is sent twice: what the first answer refused must not be let through by the
+	// document cache the second time; the second answer is the one that is judged
+	first := univ.NewExec(e.Plan)
+	first.RecordArgs = e.RecordArgs
+	s.U.SetExec(first)
+	_ = hsrv.Serve(h, r.Build())
+	s.U.SetExec(e)
 	res := hsrv.Serve(h, r.Build())
 	out := &proj.Response{Rejected: res.Status != 200}
 	var env struct {
